@@ -48,6 +48,10 @@ use crate::RefCnt;
 const NODE_UNUSED: usize = 0;
 const NODE_USED: usize = 1;
 const NODE_COOLDOWN: usize = 2;
+/// The state lives in the low bits of `in_use`. The rest counts how many times the node was
+/// claimed, so a state of one tenure of the node can't be mistaken for the same state of another.
+const NODE_STATE_MASK: usize = 0b11;
+const NODE_CLAIM: usize = 0b100;
 
 /// The head of the debt linked list.
 static LIST_HEAD: AtomicPtr<Node> = AtomicPtr::new(ptr::null_mut());
@@ -117,7 +121,11 @@ impl Node {
         // Trick: Make sure we have an up to date value of the active_writers in this thread, so we
         // can properly release it below.
         let _reservation = self.reserve_writer();
-        assert_eq!(NODE_USED, self.in_use.swap(NODE_COOLDOWN, Release));
+        // We own the node, nobody else changes the state now.
+        let used = self.in_use.load(Relaxed);
+        assert_eq!(NODE_USED, used & NODE_STATE_MASK);
+        let cooldown = (used & !NODE_STATE_MASK) | NODE_COOLDOWN;
+        assert_eq!(used, self.in_use.swap(cooldown, Release));
         #[cfg(arc_swap_verif)]
         verif_rt::event(verif_rt::probes::COOLDOWN_STARTED, self as *const Node as usize);
     }
@@ -131,16 +139,24 @@ impl Node {
         // * More importantly, sync the value of active_writers to be at least the value when the
         //   cooldown started. That way we know the 0 we observe happened some time after
         //   start_cooldown.
-        if self.in_use.load(Acquire) == NODE_COOLDOWN {
+        let state = self.in_use.load(Acquire);
+        if state & NODE_STATE_MASK == NODE_COOLDOWN {
             // The rest can be nicely relaxed ‒ no memory is being synchronized by these
             // operations. We just see an up to date 0 and allow someone (possibly us) to claim the
             // node later on.
+            //
+            // The exchange must fail if the cooldown we have looked at is over in the meantime
+            // (someone else ended it, the node got claimed, used and sent to another cooldown,
+            // this time possibly with a writer inside that has seen a generation of that owner).
+            // That's why the state carries the count of claims ‒ the 0 above says nothing about
+            // any other cooldown than the one we saw.
             if self.active_writers.load(Relaxed) == 0 {
                 #[cfg(arc_swap_verif)]
                 verif_rt::probe(verif_rt::probes::COOLDOWN_ENDED, false);
+                let unused = (state & !NODE_STATE_MASK) | NODE_UNUSED;
                 let _ = self
                     .in_use
-                    .compare_exchange(NODE_COOLDOWN, NODE_UNUSED, Relaxed, Relaxed);
+                    .compare_exchange(state, unused, Relaxed, Relaxed);
             } else {
                 #[cfg(arc_swap_verif)]
                 verif_rt::probe(verif_rt::probes::COOLDOWN_BLOCKED, false);
@@ -162,12 +178,17 @@ impl Node {
         // Try to find an unused one in the chain and reuse it.
         Self::traverse(|node| {
             node.check_cooldown();
-            if node
-                .in_use
-                // We claim a unique control over the generation and the right to write to slots if
-                // they are NO_DEPT
-                .compare_exchange(NODE_UNUSED, NODE_USED, SeqCst, Relaxed)
-                .is_ok()
+            // (Relaxed is fine, the compare-exchange below has the last word.)
+            let unused = node.in_use.load(Relaxed);
+            // Each claim makes the states of this tenure different from the ones before.
+            let used = (unused & !NODE_STATE_MASK).wrapping_add(NODE_CLAIM) | NODE_USED;
+            if unused & NODE_STATE_MASK == NODE_UNUSED
+                && node
+                    .in_use
+                    // We claim a unique control over the generation and the right to write to
+                    // slots if they are NO_DEPT
+                    .compare_exchange(unused, used, SeqCst, Relaxed)
+                    .is_ok()
             {
                 #[cfg(arc_swap_verif)]
                 verif_rt::event(verif_rt::probes::NODE_CLAIMED, node as *const Node as usize);
@@ -286,7 +307,7 @@ impl LocalNode {
     #[inline]
     pub(crate) fn new_fast(&self, ptr: usize) -> Option<&'static Debt> {
         let node = &self.node.get().expect("LocalNode::with ensures it is set");
-        debug_assert_eq!(node.in_use.load(Relaxed), NODE_USED);
+        debug_assert_eq!(node.in_use.load(Relaxed) & NODE_STATE_MASK, NODE_USED);
         node.fast.get_debt(ptr, &self.fast)
     }
 
@@ -295,7 +316,7 @@ impl LocalNode {
     /// Returns the generation (with tag).
     pub(crate) fn new_helping(&self, ptr: usize) -> usize {
         let node = &self.node.get().expect("LocalNode::with ensures it is set");
-        debug_assert_eq!(node.in_use.load(Relaxed), NODE_USED);
+        debug_assert_eq!(node.in_use.load(Relaxed) & NODE_STATE_MASK, NODE_USED);
         // If the generation wrapped around, the node is retired in `finish_helping`, once the
         // transaction is over. Doing it here would leave the rest of this very transaction
         // (`confirm_helping`) without a node.
@@ -333,7 +354,7 @@ impl LocalNode {
         ptr: usize,
     ) -> Result<&'static Debt, (&'static Debt, usize)> {
         let node = &self.node.get().expect("LocalNode::with ensures it is set");
-        debug_assert_eq!(node.in_use.load(Relaxed), NODE_USED);
+        debug_assert_eq!(node.in_use.load(Relaxed) & NODE_STATE_MASK, NODE_USED);
         let slot = node.helping_slot();
         node.helping
             .confirm(gen, ptr)
@@ -351,7 +372,7 @@ impl LocalNode {
         R: Fn() -> T,
     {
         let node = &self.node.get().expect("LocalNode::with ensures it is set");
-        debug_assert_eq!(node.in_use.load(Relaxed), NODE_USED);
+        debug_assert_eq!(node.in_use.load(Relaxed) & NODE_STATE_MASK, NODE_USED);
         // `help` may run a nested load on this thread, which may replace our node (generation
         // wrap-around), therefore it asks for the current one again afterwards.
         let current = || -> &'static HelpingSlots {
